@@ -544,6 +544,26 @@ func runC20(c *Ctx) {
 				c.Check(ok, "C20.repeat", fnName(nextValue), fmt.Sprintf("Repeat=%d", rep), P.Pos(nextValue.Pos()), fmt.Sprintf("clone@%d repeat-store@%d dropped=%v; path: %s", ci, ri, p.Has(isVNil), p.String()))
 			}
 		}
+		// every value that stays alive moves on in time, whatever its kind (markers included)
+		c.Rule("C20.advance", "nextValue with Repeat 0 (unbounded) and Repeat 2: every path that keeps the value and returns without error has called updateTimestamp - for every kind of value, the payload-free delete and sync markers included (a repeating marker whose timestamp stands still is re-queued at its first timestamp for ever and nothing behind it is ever emitted)")
+		for _, rep := range []int64{0, 2} {
+			at := &Atoms{Class: cls, Int: map[string]int64{"REPEAT": rep}}
+			isTS := lbl("call:" + fnName(updTS))
+			e := &PPA{Cond: at.Cond, Watch: func(ev *Ev) bool { return isTS(ev) || ev.Label == "store:queue.value.v" }}
+			e.Run(nextValue)
+			c.Paths += len(e.Paths)
+			c.Scen++
+			n := 0
+			for i := range e.Paths {
+				p := &e.Paths[i]
+				if p.End != "return" || len(p.Rets) != 1 || retClass(p.Rets[0]) != "nil" || p.Has(isVNil) {
+					continue
+				}
+				n++
+				c.Check(p.Has(isTS), "C20.advance", fnName(nextValue), fmt.Sprintf("Repeat=%d: a value that stays alive gets a new timestamp", rep), P.Pos(nextValue.Pos()), "path: "+p.String())
+			}
+			c.Floor(fmt.Sprintf("C20.advance/paths(repeat=%d)", rep), n, 2)
+		}
 		// Next re-adds iff alive
 		c.Analysed(fnName(Next))
 		for _, alive := range []bool{true, false} {
